@@ -15,6 +15,8 @@ CONSTANTS Platforms,    \* subset of {"ledger", "sgx"}
           MaxDev,       \* dimensions that may deviate from a genuine triple
           MaxFileMut,   \* of which at most this many mutations of the public-keys file
           Sep,          \* BOOLEAN: include headers with a foreign version separator
+          FullExt,      \* inputs with more deviations than this use only the representative
+                        \* members of the content classes (extension bytes, separators, tails)
           Wildcard      \* BOOLEAN: model the header expressions with an unescaped '.' (the defect
                         \* repaired by "fix: match the literal dot in attestation message header
                         \* versions"); TRUE only in the negative configuration Neg2_Verify
@@ -37,14 +39,29 @@ Stranger == 4             \* a key the device does not hold
 E(p, k) == [path |-> p, key |-> k]
 BaseFile == [kind |-> "ok", ents |-> <<E(Btc, 1), E(P2, 2), E(P3, 3)>>]
 BaseHash == OperatorHash(BaseFile)
-NaUi == [exists |-> "na", chain |-> "na", hdr |-> "na", key |-> 0]
+NaUi == [exists |-> "na", chain |-> "na", hdr |-> "na", sepc |-> "na", key |-> 0,
+         len |-> "na", at |-> "na", m |-> "na", n |-> 0, tail |-> "na"]
+
+\* content classes: every member is an explicit choice of the environment
+ExtMembers   == DOMAIN ExtTable \cup {"rand1", "randn"}
+SepMembers   == DOMAIN SepTable
+TailMembers  == DOMAIN ExtTable
+TailMembers1 == {m \in DOMAIN ExtTable : Len(ExtTable[m]) = 1}   \* a hash can be ground to end in one byte
+RepExt  == {"lf", "rand1"}
+RepSep  == {"x", "lf"}
+RepTail == {"lf"}
+ModelBytes(m) == IF m \in DOMAIN ExtTable THEN ExtTable[m]
+                 ELSE IF m = "rand1" THEN <<7>> ELSE <<7, 77, 177>>
 
 Good(plat, fmt) ==
     [plat |-> plat, args |-> "ok", root |-> "right", certfile |-> "ok", file |-> BaseFile,
      btc |-> Btc, mh |-> BaseHash,
-     ui |-> IF plat = "ledger" THEN [exists |-> "t", chain |-> "intact", hdr |-> "ok", key |-> 1]
+     ui |-> IF plat = "ledger"
+            THEN [exists |-> "t", chain |-> "intact", hdr |-> "ok", sepc |-> "dot", key |-> 1,
+                  len |-> "exact", at |-> "none", m |-> "na", n |-> 0, tail |-> "any"]
             ELSE NaUi,
-     pow |-> [exists |-> "t", chain |-> "intact", hdr |-> fmt, len |-> "exact"]]
+     pow |-> [exists |-> "t", chain |-> "intact", hdr |-> fmt, sepc |-> "dot",
+              len |-> "exact", at |-> "none", m |-> "na", n |-> 0, tail |-> "any"]]
 
 (***************************************************************************)
 (* Mutations of the public-keys file                                       *)
@@ -106,23 +123,44 @@ DevFile  == /\ nfile < MaxFileMut /\ pc = "env" /\ ndev < MaxDev
             /\ UNCHANGED <<pc, outcome, site, printed, sys>>
 DevHash  == inp.mh = BaseHash /\ \E h \in HashVariants(inp.file) \ {BaseHash} :
                 Dev([inp EXCEPT !.mh = h])
+\* the length of a message deviates: n bytes cut at the end, or a member put after / before it
+LenDevs(t, cuts) ==
+    {[t EXCEPT !.len = "short", !.at = "cut", !.n = c] : c \in cuts}
+    \cup {[t EXCEPT !.len = "long", !.at = a, !.m = m, !.n = Len(ModelBytes(m))] :
+              <<a, m>> \in {"suffix", "prefix"} \X ExtMembers}
+Plain(t) == t.len = "exact" /\ t.tail = "any"
+LegFmt(h) == h \in {"legacy", "sepleg"}
 DevUi    == /\ IsL
             /\ \/ inp.ui.exists = "t" /\ Dev([inp EXCEPT !.ui.exists = "f"])
                \/ inp.ui.chain = "intact" /\ Dev([inp EXCEPT !.ui.chain = "broken"])
-               \/ inp.ui.hdr = "ok" /\ \E v \in {"foreign"} \cup (IF Sep THEN {"sep"} ELSE {}) :
-                      Dev([inp EXCEPT !.ui.hdr = v])
+               \/ inp.ui.hdr = "ok" /\ Dev([inp EXCEPT !.ui.hdr = "foreign", !.ui.sepc = "na"])
+               \/ inp.ui.hdr = "ok" /\ Sep /\ \E c \in SepMembers :
+                      Dev([inp EXCEPT !.ui.hdr = "sep", !.ui.sepc = c])
                \/ inp.ui.key = 1 /\ \E k \in {2, Stranger} : Dev([inp EXCEPT !.ui.key = k])
+               \/ Plain(inp.ui) /\ \E t \in LenDevs(inp.ui, {1, 3, 99}) : Dev([inp EXCEPT !.ui = t])
+               \/ Plain(inp.ui) /\ \E m \in TailMembers : Dev([inp EXCEPT !.ui.tail = m])
 DevPow   == \/ inp.pow.exists = "t" /\ Dev([inp EXCEPT !.pow.exists = "f"])
             \/ inp.pow.chain = "intact" /\ Dev([inp EXCEPT !.pow.chain = "broken"])
-            \/ inp.pow.hdr = "current" /\
-                  \E v \in {"foreign"} \cup (IF Sep THEN {"sep"} ELSE {})
-                           \cup (IF IsL THEN {} ELSE {"legacy"}) :
-                      Dev([inp EXCEPT !.pow.hdr = v])
-            \/ inp.pow.hdr = "legacy" /\ IsL /\
-                  \E v \in {"foreign"} \cup (IF Sep THEN {"sepleg"} ELSE {}) :
-                      Dev([inp EXCEPT !.pow.hdr = v])
-            \/ inp.pow.len = "exact" /\ \E v \in {"short", "long"} : Dev([inp EXCEPT !.pow.len = v])
+            \/ inp.pow.hdr \in {"current", "legacy"} /\ (IsL \/ inp.pow.hdr = "current") /\
+                  Dev([inp EXCEPT !.pow.hdr = "foreign", !.pow.sepc = "na"])
+            \/ inp.pow.hdr = "current" /\ ~IsL /\ inp.pow.n <= 32 /\ inp.pow.tail \in TailMembers1 \cup {"any"} /\
+                  Dev([inp EXCEPT !.pow.hdr = "legacy"])
+            \/ inp.pow.hdr \in {"current", "legacy"} /\ (IsL \/ inp.pow.hdr = "current") /\ Sep /\
+                  \E c \in SepMembers :
+                      Dev([inp EXCEPT !.pow.hdr = IF inp.pow.hdr = "legacy" THEN "sepleg" ELSE "sep",
+                                      !.pow.sepc = c])
+            \/ Plain(inp.pow) /\
+                  \E t \in LenDevs(inp.pow, {1, 8, 32} \cup (IF LegFmt(inp.pow.hdr) THEN {} ELSE {115})) :
+                      Dev([inp EXCEPT !.pow = t])
+            \/ Plain(inp.pow) /\
+                  \E m \in (IF LegFmt(inp.pow.hdr) THEN TailMembers1 ELSE TailMembers) :
+                      Dev([inp EXCEPT !.pow.tail = m])
+\* only the representative members once more than FullExt dimensions deviate
+NonRep(t) == \/ t.at \in {"suffix", "prefix"} /\ t.m \notin RepExt
+             \/ t.hdr \in {"sep", "sepleg"} /\ t.sepc \notin RepSep
+             \/ t.tail \notin RepTail \cup {"any", "na"}
 Start    == /\ pc = "env" /\ pc' = (IF IsL THEN "l1" ELSE "s1")
+            /\ ndev <= FullExt \/ ~(NonRep(inp.pow) \/ (IsL /\ NonRep(inp.ui)))
             /\ UNCHANGED <<inp, ndev, nfile, outcome, site, printed, sys>>
 
 (***************************************************************************)
@@ -130,32 +168,33 @@ Start    == /\ pc = "env" /\ pc' = (IF IsL THEN "l1" ELSE "s1")
 (* Every body byte is position-coded, so a wrong offset shows.             *)
 (***************************************************************************)
 Fill(n, base) == [i \in 1..n |-> (base + i) % 256]
-Ver54 == <<53, 46, 52>>        \* 5.4
-Ver53 == <<53, 46, 51>>        \* 5.3
-Ver5x4 == <<53, 120, 52>>      \* 5x4
-Ver5x3 == <<53, 120, 51>>
-UiHdrBytes(c) == CASE c = "ok"  -> UiPrefix \o Ver54
-                   [] c = "sep" -> UiPrefix \o Ver5x4
-                   [] OTHER     -> <<72, 83, 77, 58, 85, 74, 58>> \o Ver54           \* HSM:UJ:5.4
-PowHdrBytes(c) == CASE c = "current" -> PowPrefix \o Ver54 \o <<58, 58>>
-                    [] c = "sep"     -> PowPrefix \o Ver5x4 \o <<58, 58>>
-                    [] c = "legacy"  -> LegPrefix \o Ver53
-                    [] c = "sepleg"  -> LegPrefix \o Ver5x3
-                    [] OTHER         -> <<80, 48, 87, 72, 83, 77, 58>> \o Ver54 \o <<58, 58>>  \* P0WHSM:5.4::
+SepByte(c) == IF c \in DOMAIN SepTable THEN SepTable[c][1] ELSE Dot
+UiHdrBytes(t) == IF t.hdr \in {"ok", "sep"} THEN UiPrefix \o <<53, SepByte(t.sepc), 52>>     \* HSM:UI:5.4
+                 ELSE <<72, 83, 77, 58, 85, 74, 58, 53, 46, 52>>                               \* HSM:UJ:5.4
+PowHdrBytes(t) == CASE t.hdr \in {"current", "sep"}   -> PowPrefix \o <<53, SepByte(t.sepc), 52, 58, 58>>
+                    [] t.hdr \in {"legacy", "sepleg"} -> LegPrefix \o <<53, SepByte(t.sepc), 51>>
+                    [] OTHER -> <<80, 48, 87, 72, 83, 77, 58, 53, 46, 52, 58, 58>>             \* P0WHSM:5.4::
 Key33(k) == <<2, k>> \o [i \in 1..31 |-> 0]
 K33 == [k \in 1..6 |-> Key33(k)]
 HashBytes(h) == [i \in 1..32 |-> IF i = 1 THEN (CASE h.enc = "unc" -> 1 [] h.enc = "comp" -> 2 [] OTHER -> 3)
                                  ELSE IF i - 1 <= Len(h.pre) THEN h.pre[i - 1] ELSE 0]
-Adjust(m, c) == CASE c = "short" -> SubSeq(m, 1, Len(m) - 1)
-                  [] c = "long"  -> Append(m, 7)
-                  [] OTHER       -> m
+\* "the hash of a legacy message happens to end in byte b": then SHA-256 does, for everybody
+HB(h, i) == IF LegFmt(i.pow.hdr) /\ i.pow.tail \in DOMAIN ExtTable
+            THEN [HashBytes(h) EXCEPT ![32] = ExtTable[i.pow.tail][1]] ELSE HashBytes(h)
+WithTail(m, t) == IF t.tail \in DOMAIN ExtTable
+                  THEN SubSeq(m, 1, Len(m) - Len(ExtTable[t.tail])) \o ExtTable[t.tail] ELSE m
+ApplyExt(m, t) == CASE t.at = "cut"    -> SubSeq(m, 1, Len(m) - t.n)
+                    [] t.at = "suffix" -> m \o ModelBytes(t.m)
+                    [] t.at = "prefix" -> ModelBytes(t.m) \o m
+                    [] OTHER           -> m
 Plat3(p) == IF p = "ledger" THEN <<108, 101, 100>> ELSE <<115, 103, 120>>
-PowMsg(i) == Adjust(IF i.pow.hdr \in {"legacy", "sepleg"}
-                    THEN PowHdrBytes(i.pow.hdr) \o HashBytes(i.mh)
-                    ELSE PowHdrBytes(i.pow.hdr) \o Plat3(i.plat) \o Fill(32, 20) \o HashBytes(i.mh)
-                         \o Fill(32, 60) \o Fill(8, 100) \o Fill(8, 110),
-                    i.pow.len)
-UiMsg(i) == UiHdrBytes(i.ui.hdr) \o Fill(32, 130) \o Key33(i.ui.key) \o Fill(32, 170) \o <<0, 9>>
+PowMsg(i) == ApplyExt(WithTail(IF LegFmt(i.pow.hdr)
+                               THEN PowHdrBytes(i.pow) \o HB(i.mh, i)
+                               ELSE PowHdrBytes(i.pow) \o Plat3(i.plat) \o Fill(32, 20) \o HB(i.mh, i)
+                                    \o Fill(32, 60) \o Fill(8, 100) \o Fill(8, 110),
+                               i.pow), i.pow)
+UiMsg(i) == ApplyExt(WithTail(UiHdrBytes(i.ui) \o Fill(32, 130) \o Key33(i.ui.key) \o Fill(32, 170)
+                              \o <<0, 9>>, i.ui), i.ui)
 SignedOf(i) == [ui |-> IF i.plat = "ledger" THEN UiMsg(i) ELSE <<>>,
                 uitweak |-> IF i.plat = "ledger" THEN Fill(32, 200) ELSE <<>>,
                 pow |-> PowMsg(i),
@@ -182,7 +221,7 @@ Go(p)  == pc' = p /\ UNCHANGED <<inp, ndev, nfile, outcome, site, printed, sys>>
 GoSys(p, s2) == pc' = p /\ sys' = s2 /\ UNCHANGED <<inp, ndev, nfile, outcome, site, printed>>
 Chk(at, bad, s, next) == pc = at /\ IF bad THEN Err(s) ELSE Go(next)
 
-FileHash(f) == HashBytes([enc |-> "unc", pre |-> KeysInPathOrder(f)])   \* sorted(keys), uncompressed
+FileHash(f) == HB([enc |-> "unc", pre |-> KeysInPathOrder(f)], inp)   \* sorted(keys), uncompressed
 Verdict(t) == IF t.exists # "t" THEN "absent"
               ELSE IF inp.root = "right" /\ t.chain = "intact" THEN "valid" ELSE "invalid"
 
@@ -199,7 +238,8 @@ L_LoadCert   == Chk("l8", inp.certfile # "ok", "LoadCert", "l9")
 L_Validate   == pc = "l9" /\ GoSys("l10", [sys EXCEPT !.ui = Verdict(inp.ui), !.pow = Verdict(inp.pow)])
 L_NoUi       == Chk("l10", sys.ui = "absent", "NoUi", "l11")
 L_UiInvalid  == Chk("l11", sys.ui = "invalid", "UiInvalid", "l12")
-L_UiHeader   == Chk("l12", ~MatchUi(S.ui), "UiHeader", "l13")
+L_UiHeader   == Chk("l12", ~MatchUi(S.ui), "UiHeader", "l12b")
+L_UiLength   == Chk("l12b", Len(S.ui) # 10 + UD + PK + SH + IT, "UiLength", "l13")
 L_UiKey      == Chk("l13", PySlice(S.ui, 10 + UD, 10 + UD + PK) # Key33(KeyAt(inp.file, Btc)),
                     "UiKey", "l14")
 L_UiPrint    == /\ pc = "l14" /\ pc' = "l15"
@@ -246,7 +286,7 @@ S_Return     == /\ pc = "s13" /\ pc' = "done" /\ outcome' = "return" /\ site' = 
 
 EnvNext == DevArgs \/ DevRoot \/ DevCert \/ DevFile \/ DevHash \/ DevUi \/ DevPow \/ Start
 SysNext == \/ L_NoCert \/ L_NoPub \/ L_RootHex \/ L_RootParse \/ L_LoadKeys \/ L_HashKeys \/ L_BtcKey
-           \/ L_LoadCert \/ L_Validate \/ L_NoUi \/ L_UiInvalid \/ L_UiHeader \/ L_UiKey \/ L_UiPrint
+           \/ L_LoadCert \/ L_Validate \/ L_NoUi \/ L_UiInvalid \/ L_UiHeader \/ L_UiLength \/ L_UiKey \/ L_UiPrint
            \/ L_NoSigner \/ L_SgInvalid \/ L_SgHeader \/ L_SgLength \/ L_SgHash \/ L_Return
            \/ S_NoCert \/ S_NoPub \/ S_RootLoad \/ S_RootSelf \/ S_Keys \/ S_LoadCert \/ S_Validate
            \/ S_NoQuote \/ S_QInvalid \/ S_Header \/ S_Length \/ S_Hash \/ S_Return
